@@ -77,6 +77,20 @@ func c08SchnorrReal(c *kc.Ctx) {
 				c.Violation("schnorr:"+g.Name+":honest-rejected", "schnorr.Verify rejects an honest signature ("+res+")", rp)
 				continue
 			}
+			// caller-owned buffers: verify, overwrite the message / signature buffer in place, verify again
+			if len(msg) > 0 {
+				mb, sb := append([]byte{}, msg...), append([]byte{}, sig...)
+				v1 := kc.Recover(func() string { return sigErrStr(schnorr.Verify(g.Group, A, mb, sb)) })
+				mb[len(mb)/2] ^= 0x40
+				v2 := kc.Recover(func() string { return sigErrStr(schnorr.Verify(g.Group, A, mb, sb)) })
+				mb[len(mb)/2] ^= 0x40
+				sb[len(sb)-1] ^= 1
+				v3 := kc.Recover(func() string { return sigErrStr(schnorr.Verify(g.Group, A, mb, sb)) })
+				c.Eval(3)
+				if v1 != "ok" || v2 == "ok" || v3 == "ok" {
+					c.Violation("schnorr:"+g.Name+":reused-buffer", fmt.Sprintf("schnorr.Verify: %s on (m, sig); after overwriting the message buffer in place: %s; after restoring it and overwriting the signature buffer: %s", v1, v2, v3), rp)
+				}
+			}
 			pub, _ := A.MarshalBinary()
 			try := func(kind string, p, m, s []byte) {
 				r := kc.Recover(func() string { return sigErrStr(schnorr.VerifyWithChecks(g.Group, p, m, s)) })
